@@ -298,7 +298,11 @@ class Model:
                         (not any(isinstance(a, ast.Starred) for a in par.args) or
                          (sum(isinstance(a, ast.Starred) for a in par.args) == 1 and
                           all(fi.node.args.vararg is None for fi in cands[name])))
-                    if direct:
+                    # an entry of a module-level dispatch table ((key, handler), ...): the engine walks such tables entry by
+                    # entry, so the handler is called where the table is iterated
+                    tabled = isinstance(par, ast.Tuple) and isinstance(getattr(par, "_parent", None), ast.Tuple) and \
+                        isinstance(getattr(par._parent, "_parent", None), ast.Assign) and getattr(par._parent._parent, "col_offset", 1) == 0
+                    if direct or tabled:
                         calls[name] += 1
                     else:
                         other[name] += 1
